@@ -6,6 +6,7 @@ import (
 	"fmt"
 	"sort"
 	"strings"
+	"sync"
 	"testing"
 
 	conformancev1 "connectrpc.com/conformance/internal/gen/proto/go/connectrpc/conformance/v1"
@@ -556,4 +557,85 @@ func vfContainsLine(text, line string) bool {
 		}
 	}
 	return false
+}
+
+// TestVerifC08Concurrent: one pattern set consulted from several goroutines at once (the match counters of the trie
+// are atomics: it is meant to be shared). Every single answer must be the reference matcher's, and afterwards a
+// pattern counts as unmatched exactly if no name matched it.
+func TestVerifC08Concurrent(t *testing.T) {
+	verifkit.Run(t, "C08Concurrent", verifkit.Spec[vfC08Case]{
+		Gen: func(t *rapid.T) vfC08Case {
+			var c vfC08Case
+			for i, n := 0, rapid.IntRange(1, 6).Draw(t, "npatterns"); i < n; i++ {
+				c.Patterns = append(c.Patterns, vfGenPattern(t, "pat"))
+			}
+			for i, n := 0, rapid.IntRange(4, 16).Draw(t, "nnames"); i < n; i++ {
+				c.Names = append(c.Names, vfGenName(t, "name"))
+			}
+			return c
+		},
+		Check: func(c vfC08Case) error {
+			trie := parsePatterns(c.Patterns)
+			if trie == nil {
+				return nil
+			}
+			const workers, rounds = 6, 40
+			errs := make(chan error, workers)
+			start := make(chan struct{})
+			var wg sync.WaitGroup
+			for w := 0; w < workers; w++ {
+				wg.Add(1)
+				go func(w int) {
+					defer wg.Done()
+					<-start
+					for r := 0; r < rounds; r++ {
+						for k := range c.Names {
+							name := c.Names[(k+w*3+r)%len(c.Names)]
+							if got, want := trie.matchPattern(name), vfRefAny(c.Patterns, name); got != want {
+								select {
+								case errs <- verifkit.Violf("concurrent-match", "patterns %q name %q: matchPattern=%v while %d goroutines use the set, glob semantics say %v", c.Patterns, name, got, workers, want):
+								default:
+								}
+								return
+							}
+						}
+					}
+				}(w)
+			}
+			close(start)
+			wg.Wait()
+			select {
+			case err := <-errs:
+				return err
+			default:
+			}
+			unmatched := map[string]bool{}
+			for u := range trie.allUnmatched() {
+				unmatched[u] = true
+			}
+			for _, p := range c.Patterns {
+				hit := false
+				for _, n := range c.Names {
+					if vfRefGlobStr(p, n) {
+						hit = true
+					}
+				}
+				// (a pattern shadowed by another one of the set may be reported unmatched although it matches: documented
+				// gap of the sequential matcher too; the other direction is firm)
+				if !hit && !unmatched[p] {
+					return verifkit.Violf("concurrent-unmatched", "pattern %q matched no name but is not reported unmatched after concurrent use (names %q)", p, c.Names)
+				}
+			}
+			return nil
+		},
+		Classify: func(c vfC08Case) ([]string, bool) {
+			hits := 0
+			for _, n := range c.Names {
+				if vfRefAny(c.Patterns, n) {
+					hits++
+				}
+			}
+			return []string{fmt.Sprintf("matching-names:%d", hits)}, hits > 0 && hits < len(c.Names)
+		},
+	})
 }
